@@ -1208,6 +1208,44 @@ impl World {
                 break;
             }
         }
+        // ... and the same transaction with one known identity named as before but *not signing*
+        // (the key stays where it was, only its signature is withheld): whatever the instruction
+        // compares the key with, it must also have asked for the signature
+        let mut done = 0;
+        for s in signers {
+            let sk = s.pubkey();
+            if !known.contains(&sk) {
+                continue;
+            }
+            if !ixs.iter().any(|i| i.program_id == ix::MFI && i.accounts.iter().any(|a| a.pubkey == sk && a.is_signer)) {
+                continue;
+            }
+            let ixs2: Vec<Instruction> = ixs
+                .iter()
+                .map(|i| {
+                    let mut j = i.clone();
+                    for a in j.accounts.iter_mut() {
+                        if a.pubkey == sk {
+                            a.is_signer = false;
+                        }
+                    }
+                    j
+                })
+                .collect();
+            let signers2: Vec<Keypair> = signers.iter().filter(|k| k.pubkey() != sk).map(|k| clone_kp(k)).collect();
+            let refs: Vec<&Keypair> = signers2.iter().collect();
+            let o = self.probe(m, &ixs2, &refs).await;
+            m.r.count(if o.ok() { "unsigned.probes_accepted" } else { "unsigned.probes_rejected" });
+            if o.ok() {
+                for i in ixs.iter().filter(|i| i.program_id == ix::MFI) {
+                    m.r.count(&format!("unsigned.accepted_with/{}", crate::kinds::Kind::of(&i.data).name()));
+                }
+            }
+            done += 1;
+            if done >= 2 {
+                break;
+            }
+        }
     }
     /// Simulate (state preserving) and feed the per-instruction monitors if it would succeed.
     pub async fn probe(&mut self, m: &mut Mon, ixs: &[Instruction], signers: &[&Keypair]) -> TxOut {
